@@ -51,6 +51,7 @@ func (c03) Nontrivial(c *sim.Case, st *sim.Stats) bool {
 
 func (c03) Gen(r *sim.Rand, c *sim.Case, tier string) {
 	g := world.NewGen(r)
+	g.Extra = true
 	g.Alpha = []int{0}
 	for _, cls := range []int{3, 4, 1} {
 		if r.Chance(0.4) {
